@@ -73,6 +73,13 @@ theorem read_lines (L : Limits) (v : J) (off : Nat) (h : WF v) :
   rw [lines, lines]
   exact read_render L v off h
 
+/-- The model renders the entries of a dict in insertion order and sorts the rendered entries;
+the code sorts the keys and renders in that order. Both give the same list: the rendering of an
+entry depends on its value and the offset only. -/
+theorem sort_then_render (c : Consts) (L : Limits) (kvs : List (List Char × J)) (off : Nat) :
+    sortE (genEntries c L kvs off) = (sortE kvs).map (fun kv => (kv.1, gen c L kv.2 off)) := by
+  rw [genEntries_eq, sortE_map (fun kv => gen c L kv.2 off)]
+
 /-- The reader is a function on texts and reads the canonical tokens of every value back, so two
 values with the same printed text have the same `norm` (the text determines the value). -/
 theorem text_determines_value (L : Limits) (v w : J) (off off' : Nat) (hv : WF v) (hw : WF w)
